@@ -134,6 +134,39 @@ def build_and_audit() -> Dict[str, Any]:
         return res
 
 
+RECHECK = LEAN / ".lake" / "verif_recheck.json"
+
+
+def recheck(prop: str) -> Dict[str, Any]:
+    """Thorough tier: replay the compiled proofs of the property's modules through `leanchecker`, the toolchain's
+    independent re-checker of .olean files (every declaration is re-checked by a fresh kernel instance; a declaration the
+    kernel does not accept, or an olean that does not match its source build, makes it exit non-zero).  Cached by the hash of
+    all Lean sources."""
+    mods = sorted("USProofs.Properties." + f.stem for f in (LEAN / "USProofs" / "Properties").glob(prop + "*.lean"))
+    with open(LOCK, "w") as lk:
+        fcntl.flock(lk, fcntl.LOCK_EX)
+        h = source_hash()
+        cache: Dict[str, Any] = {}
+        if RECHECK.exists():
+            try:
+                cache = json.loads(RECHECK.read_text())
+            except Exception:
+                cache = {}
+        if cache.get("hash") != h:
+            cache = {"hash": h, "props": {}}
+        if prop in cache["props"]:
+            return {**cache["props"][prop], "cached": True}
+        t0 = time.time()
+        try:
+            rc, out = _run(["lake", "env", "leanchecker"] + mods, timeout=1800)
+        except Exception as e:  # noqa: BLE001
+            rc, out = 1, f"{type(e).__name__}: {e}"
+        res = {"modules": mods, "ok": rc == 0 and bool(mods), "log": out[-1500:] if rc != 0 else "", "wall_s": round(time.time() - t0, 1)}
+        cache["props"][prop] = res
+        RECHECK.write_text(json.dumps(cache))
+        return res
+
+
 def obligations_for(prop: str, res: Dict[str, Any]) -> Dict[str, Any]:
     reg = registry()
     thms = reg.get(prop, [])
